@@ -731,18 +731,85 @@ func ruleReset(c *Ctx, m *ttModel) {
 			return ok && k == d
 		}
 	}
+	// the stop code is the function (in a stop entry's region) that calls the report function; the decrement and the zero
+	// test may sit in it or in a small helper of the record (release() (inactive bool))
 	var stop *ssa.Function
 	for _, e := range m.stops {
 		for _, f := range m.regOf[e].Fns {
-			if bodyHas(f, isDelta(-1)) {
-				stop = f
+			for _, cl := range eng.Calls(f) {
+				for _, cal := range repoCallees(c, cl) {
+					if cal == report {
+						stop = f
+					}
+				}
 			}
 		}
 	}
 	if stop == nil {
+		for _, e := range m.stops {
+			for _, f := range m.regOf[e].Fns {
+				if bodyHas(f, isDelta(-1)) {
+					stop = f
+				}
+			}
+		}
+	}
+	decMay := liftMay(c, isDelta(-1))
+	if stop == nil || !bodyHas(stop, decMay) {
 		c.Check("RESET", "stop:decrements-the-open-count", "-", false, "no stop code decrements the record's open count")
 	} else {
 		zero, tests := zeroTestEdges(stop, acT, m.cntField)
+		// a predicate helper: every return is a zero comparison of the open count
+		for _, cl := range eng.Calls(stop) {
+			call, ok := cl.(*ssa.Call)
+			if !ok {
+				continue
+			}
+			h := call.Call.StaticCallee()
+			if h == nil || !p.InRepo(h) || len(h.Blocks) == 0 || h.Signature.Results().Len() != 1 || h.Signature.Results().At(0).Type().String() != "bool" {
+				continue
+			}
+			pol, okP := 0, true
+			for _, r := range eng.Returns(h) {
+				rv := r.Results[0]
+				if sv := p.ReachingStore(rv, r); sv != nil {
+					rv = sv
+				}
+				bo, isB := p.Resolve(rv).(*ssa.BinOp)
+				if !isB || !eng.IsFieldLoad(bo.X, acT, m.cntField) {
+					okP = false
+					continue
+				}
+				n, isK := eng.ConstInt(bo.Y)
+				switch {
+				case isK && (bo.Op == token.EQL && n == 0 || bo.Op == token.LEQ && n == 0 || bo.Op == token.LSS && n == 1):
+					if pol == -1 {
+						okP = false
+					}
+					pol = 1
+				case isK && (bo.Op == token.NEQ && n == 0 || bo.Op == token.GTR && n == 0 || bo.Op == token.GEQ && n == 1):
+					if pol == 1 {
+						okP = false
+					}
+					pol = -1
+				default:
+					okP = false
+				}
+			}
+			if !okP || pol == 0 {
+				continue
+			}
+			t, f := eng.BoolEdges(stop, func(v ssa.Value) bool { return v == ssa.Value(call) })
+			if pol < 0 {
+				t = f
+			}
+			for e := range t {
+				zero[e] = true
+				if iff, isIf := e.From.Instrs[len(e.From.Instrs)-1].(*ssa.If); isIf {
+					tests = append(tests, iff)
+				}
+			}
+		}
 		c.Check("RESET", short(stop)+":zero-test", p.Pos(stop.Pos()), len(tests) > 0, "the stop code never tests the open count against zero")
 		var rep, del ssa.Instruction
 		for _, cl := range eng.Calls(stop) {
@@ -761,12 +828,23 @@ func ruleReset(c *Ctx, m *ttModel) {
 			c.CheckAt("RESET", short(stop)+":report-only-at-zero", rep, eng.Cut(stop, rep.Block(), zero), "the remaining time is reported while other tunnels of the client are open (time counted twice)")
 			c.CheckAt("RESET", short(stop)+":delete-only-at-zero", del, eng.Cut(stop, del.Block(), zero), "the client is deleted while other tunnels are open (time lost)")
 			c.CheckAt("RESET", short(stop)+":report-before-delete", del, eng.Dominates(rep, del), "the client is deleted before its remaining time is reported")
+			// the count tested is the count after this stop's decrement
+			var decSite ssa.Instruction
+			for _, b := range stop.Blocks {
+				for _, ins := range b.Instrs {
+					if decMay(ins) {
+						decSite = ins
+					}
+				}
+			}
+			c.CheckAt("RESET", short(stop)+":decrement-before-the-zero-test", rep, decSite != nil && eng.Dominates(decSite, rep), "the open count is tested before this stop has been subtracted from it")
 		}
-		_, mx, _ := eng.CountOnPaths(eng.Point{B: stop.Blocks[0]}, isDelta(-1), nil)
+		_, mx, _ := eng.CountOnPaths(eng.Point{B: stop.Blocks[0]}, decMay, nil)
 		c.Check("RESET", short(stop)+":decrement-at-most-once", p.Pos(stop.Pos()), mx == 1, fmt.Sprintf("open count decremented up to %d times per stop", mx))
 	}
 	// the start code: per call the open count goes up by exactly one — an increment, or the insertion of a fresh record
-	// whose count is initialised to 1 — and a fresh record is inserted only when the lookup missed
+	// whose count is initialised to 1 — and a fresh record is inserted only when the lookup missed. Counted from the start
+	// entry, with helper calls counted by what they must / may do.
 	for _, e := range m.starts {
 		reg := m.regOf[e]
 		var start *ssa.Function
@@ -804,8 +882,24 @@ func ruleReset(c *Ctx, m *ttModel) {
 			}
 			return initOne && ins == ssa.Instruction(insert)
 		}
-		mn, mx, _ := eng.CountOnPaths(eng.Point{B: start.Blocks[0]}, ev, nil)
-		c.Check("RESET", short(start)+":increment-exactly-once", p.Pos(start.Pos()), mn == 1 && mx == 1, fmt.Sprintf("open count goes up %d..%d times per start", mn, mx))
+		// the function from which the per-start count is taken: the one that holds the increment or (when records start
+		// at 1) the insertion, climbing to the caller while the other event is outside
+		counted := start
+		for i := 0; i < 3 && counted != e; i++ {
+			_, mxHere, _ := eng.CountOnPaths(eng.Point{B: counted.Blocks[0]}, liftMay(c, ev), nil)
+			mnHere, _, _ := eng.CountOnPaths(eng.Point{B: counted.Blocks[0]}, liftMust(c, ev, nil), nil)
+			if mnHere == 1 && mxHere == 1 {
+				break
+			}
+			sites := reg.sitesOf[counted]
+			if len(sites) != 1 {
+				break
+			}
+			counted = sites[0].Parent()
+		}
+		mn, _, _ := eng.CountOnPaths(eng.Point{B: counted.Blocks[0]}, liftMust(c, ev, nil), nil)
+		_, mx, _ := eng.CountOnPaths(eng.Point{B: counted.Blocks[0]}, liftMay(c, ev), nil)
+		c.Check("RESET", short(counted)+":increment-exactly-once", p.Pos(counted.Pos()), mn == 1 && mx == 1, fmt.Sprintf("open count goes up %d..%d times per start", mn, mx))
 		miss := eng.EdgeSet{}
 		for _, b := range start.Blocks {
 			iff, ok := b.Instrs[len(b.Instrs)-1].(*ssa.If)
